@@ -54,9 +54,7 @@ class CtrlHarness(Harness):
 
     def elaborate(self, platform):
         m = Module()
-        # both domains share one clock in this harness
-        m.domains.usb = ClockDomain()
-        m.domains.usb_io = ClockDomain()
+        # both domains tick together in this harness (the missing domains become top-level clock ports)
         m.submodules.dut = d = self.dut
         io = self.io
         m.d.comb += [
